@@ -82,13 +82,14 @@ def init_fields(cls):
 class Gen:
     """builds an instance of a struct class with symbolic field values; mirrors it as a plain tree"""
 
-    def __init__(self, ex, M, long_path=None, long_size=1, unset_path=None, nseq=2, nids=3, enum_rot=0):
+    def __init__(self, ex, M, long_path=None, long_size=1, unset_path=None, nseq=2, nids=3, enum_rot=0, empty_elem=None):
         self.ex, self.M = ex, M
         self.sym = not getattr(ex, "concrete", False)
         self.long_path, self.long_size, self.unset_path = long_path, long_size, unset_path
         self.nseq, self.nids, self.enum_rot = nseq, nids, enum_rot
         self.counter = 0
         self.packed_lists = 0
+        self.empty_elem = empty_elem  # path of one list element that is built with every field unset
 
     def name(self, path):
         self.counter += 1
@@ -138,6 +139,8 @@ class Gen:
 
     def struct(self, cls, path):
         kwargs, mirror = {}, []
+        if path == self.empty_elem:
+            return cls(), ("struct", cls, [])
         for f in init_fields(cls):
             p = "%s.%s" % (path, f.name)
             k = kind_of(self.M, f.type)
@@ -279,12 +282,27 @@ def max_enum_members(M, cls, seen=()):
     return n
 
 
-def struct_unit(M, clsname, long_path, long_size, unset_path, nseq, nids, enum_rot=0):
+def seq_struct_paths(M, cls, path, depth=0):
+    """paths of the first element of every list-of-messages field in the message tree"""
+    out = []
+    for f in init_fields(cls):
+        p = "%s.%s" % (path, f.name)
+        k = kind_of(M, f.type)
+        if k == "struct" and depth < 4:
+            out += seq_struct_paths(M, f.type, p, depth + 1)
+        elif k == "seq" and kind_of(M, f.type.__args__[0]) == "struct":
+            out.append("%s[0]" % p)
+            if depth < 4:
+                out += seq_struct_paths(M, f.type.__args__[0], "%s[1]" % p, depth + 1)
+    return out
+
+
+def struct_unit(M, clsname, long_path, long_size, unset_path, nseq, nids, enum_rot=0, empty_elem=None):
     cls = dict(struct_classes(M))[clsname]
     packed = has_packed(M, cls)
 
     def h(ex):
-        g = Gen(ex, M, long_path, long_size, unset_path, nseq, nids, enum_rot)
+        g = Gen(ex, M, long_path, long_size, unset_path, nseq, nids, enum_rot, empty_elem)
         x, mirror = g.struct(cls, clsname)
         ref = ref_struct_bytes(mirror)
         sym = g.sym
@@ -335,14 +353,16 @@ def build(tier, mutate=None, seed=0):
             unsets = fields_
         variants += [(p, s, None, nseq, dn, 1) for p, s in longs]
         variants += [(None, 1, u, nseq, dn, 2) for u in unsets]
-        for lp, ls, up, ns, ni, rot in variants:
-            tag = ("long=%s:%d" % (lp.split(".", 2)[-1], ls) if lp else "") + ("unset=%s" % up.rsplit(".", 1)[-1] if up else "") or "base"
+        variants = [v + (None,) for v in variants]
+        variants += [(None, 1, None, nseq, dn, 1, ep) for ep in seq_struct_paths(C, cls, clsname)]
+        for lp, ls, up, ns, ni, rot, ep in variants:
+            tag = ("long=%s:%d" % (lp.split(".", 2)[-1], ls) if lp else "") + ("unset=%s" % up.rsplit(".", 1)[-1] if up else "") + ("empty-leading-element=%s" % ep.split(".", 2)[-1] if ep else "") or "base"
             nm = "%s/%s/ids=%d" % (clsname, tag, ni) if has_packed(C, cls) else "%s/%s" % (clsname, tag)
             if tag == "base":
                 nm += "/enum-rotation=%d" % rot
-            args = (clsname, lp, ls, up, ns, ni, rot)
+            args = (clsname, lp, ls, up, ns, ni, rot, ep)
             units.append(Unit(nm, struct_unit(C, *args), struct_unit(R, *args), split=(ni >= 6),
-                              bounds={"class": clsname, "list_elements": ns, "packed_ids": ni, "long_field": [lp, ls], "unset": up, "enum_rotation": rot}))
+                              bounds={"class": clsname, "list_elements": ns, "packed_ids": ni, "long_field": [lp, ls], "unset": up, "enum_rotation": rot, "all_unset_leading_list_element": ep}))
     return units
 
 
